@@ -185,7 +185,7 @@ def is_good(v):
     """the guard of the theorem (mirrors Json.Good) on Python values"""
     if isinstance(v, dict):
         for k, x in v.items():
-            if not isinstance(k, str) or (k == "_type" and isinstance(x, str) and x == "tuple") or not is_good(x):
+            if not isinstance(k, str) or not is_good(x):
                 return False
         return True
     if isinstance(v, (list, tuple)):
@@ -248,18 +248,22 @@ def zarr_roundtrip(obj, tmp, zip_=False, lazy=False, name="x"):
 # ------------------------------------------------------------------ axes
 def axis_classes():
     from abtem.core import axes as A
+    from abtem.inelastic import plasmons as P
     out = []
-    for n, c in vars(A).items():
-        if isinstance(c, type) and dataclasses.is_dataclass(c) and c.__module__ == A.__name__:
-            out.append(c)
+    for mod in (A, P):
+        for n, c in vars(mod).items():
+            if isinstance(c, type) and dataclasses.is_dataclass(c) and c.__module__ == mod.__name__ and c not in out:
+                out.append(c)
     return out
 
 
-def gen_axis(rng, cls, n=3, numpy_ok=True):
+def gen_axis(rng, cls, n=3, numpy_ok=True, zero_dim=False):
     """random instance of an axis class with n items where it has values"""
     kw = {}
     for f in dataclasses.fields(cls):
-        if f.name == "values":
+        if f.name == "values" and cls.__name__ == "PlasmonAxis":
+            kw["values"] = tuple((0.5, 1.0 + i, 0.25 * i, i) for i in range(n))
+        elif f.name == "values":
             kind = rng.choice(["i", "f", "s", "tt", "np", "npt", "np2"]) if numpy_ok else rng.choice(["i", "f", "s", "tt"])
             if kind == "i":
                 kw["values"] = tuple(range(n))
@@ -276,7 +280,8 @@ def gen_axis(rng, cls, n=3, numpy_ok=True):
             else:
                 kw["values"] = np.stack([np.arange(n) * 0.5, np.arange(n) * 0.25], axis=1)
         elif f.name in ("sampling", "offset"):
-            kw[f.name] = rng.choice([0.5, 0.125, 2.0, np.float32(0.25)] if numpy_ok else [0.5, 0.125, 2.0])
+            kw[f.name] = rng.choice([0.5, 0.125, 2.0, np.float32(0.25), np.array(0.5)] if (numpy_ok and zero_dim) else
+                                    ([0.5, 0.125, 2.0, np.float32(0.25)] if numpy_ok else [0.5, 0.125, 2.0]))
         elif f.name in ("label", "units", "tex_label", "tex_units"):
             if rng.random() < 0.6:
                 kw[f.name] = rng.choice(["x", "Å", "mrad", "$C_{10}$", "x y", ""])
@@ -294,11 +299,20 @@ def axis_fields(a):
 # ------------------------------------------------------------------ array objects
 KINDS = ["Images", "DiffractionPatterns", "DiffractionPatternsNoShift", "RealSpaceLineProfiles", "ReciprocalSpaceLineProfiles",
          "PolarMeasurements", "IndexedDiffractionPatterns", "MeasurementsEnsemble", "Waves", "WavesReciprocal", "PotentialArray",
-         "PotentialArrayExit", "SMatrixArray", "TransmissionFunction", "StructureFactorArray", "TransitionPotentialArray"]
+         "PotentialArrayExit", "SMatrixArray", "TransmissionFunction", "StructureFactorArray", "TransitionPotentialArray",
+         "MagneticFieldArray", "VectorPotentialArray"]
 ENSEMBLE_AXES = ["OrdinalAxis", "NonLinearAxis", "ParameterAxis", "PositionsAxis", "ThicknessAxis", "TiltAxis", "AxisAlignedTiltAxis",
                  "FrozenPhononsAxis", "ScanAxis", "RealSpaceAxis", "UnknownAxis", "LinearAxis", "WaveVectorAxis", "PrismPlaneWavesAxis",
-                 "SampleAxis", "AxisMetadata"]
+                 "SampleAxis", "AxisMetadata", "ReciprocalSpaceAxis", "PlasmonAxis"]
 COMPLEX_ONLY = {"Waves", "WavesReciprocal", "SMatrixArray", "TransmissionFunction", "StructureFactorArray", "TransitionPotentialArray"}
+
+
+def axis_class(name):
+    from abtem.core import axes as A
+    if hasattr(A, name):
+        return getattr(A, name)
+    from abtem.inelastic import plasmons as P
+    return getattr(P, name)
 
 
 def build_object(case):
@@ -309,7 +323,7 @@ def build_object(case):
     nprng = np.random.default_rng(case["seed"])
     kind = case["kind"]
     ens_shape = tuple(case["ens_shape"])
-    ens = [gen_axis(rng, getattr(A, n), m, numpy_ok=case.get("numpy_axes", False)) for n, m in zip(case["ens_axes"], ens_shape)]
+    ens = [gen_axis(rng, axis_class(n), m, numpy_ok=case.get("numpy_axes", False)) for n, m in zip(case["ens_axes"], ens_shape)]
     dtype = np.dtype(case["dtype"])
 
     def arr(shape):
@@ -347,15 +361,20 @@ def build_object(case):
     if kind == "SMatrixArray":
         from abtem.prism.s_matrix import SMatrixArray
         wv = np.array([[0, 0], [.125, 0], [0, .125], [-.125, 0], [0, -.125]], np.float32)
+        extra = {} if case["seed"] % 2 else dict(interpolation=2, window_gpts=(2, 2), window_offset=(1, 0), periodic=(True, False))
         return SMatrixArray(arr(ens_shape + (5, 4, 4)), wave_vectors=wv, semiangle_cutoff=20.0, energy=100e3, sampling=(0.125, 0.25),
-                            ensemble_axes_metadata=ens, metadata=md)
+                            ensemble_axes_metadata=ens, metadata=md, **extra)
     if kind == "TransmissionFunction":
         from abtem.potentials.iam import TransmissionFunction
-        return TransmissionFunction(arr((2, 4, 4)), slice_thickness=(0.5, 1.0), sampling=(0.125, 0.25), energy=100e3)
+        return TransmissionFunction(arr((2, 4, 4)), slice_thickness=(0.5, 1.0), sampling=(0.125, 0.25), energy=100e3, metadata=md)
+    if kind in ("MagneticFieldArray", "VectorPotentialArray"):
+        from abtem.magnetism import iam as MI
+        return getattr(MI, kind)(arr(ens_shape + (2, 3, 4, 4)), slice_thickness=(0.5, 1.0), sampling=(0.125, 0.25),
+                                 ensemble_axes_metadata=ens, metadata=md)
     if kind == "StructureFactorArray":
         from abtem.bloch.dynamical import StructureFactorArray
         return StructureFactorArray(arr(ens_shape + (4,)), hkl=np.array([[0, 0, 0], [1, 0, 0], [0, 1, 0], [1, 1, 0]]), cell=np.eye(3) * 4,
-                                    g_max=2.0, ensemble_axes_metadata=ens, metadata=md)
+                                    g_max=2.0, centering="P" if case["seed"] % 2 else "F", ensemble_axes_metadata=ens, metadata=md)
     if kind == "TransitionPotentialArray":
         from abtem.inelastic.core_loss import TransitionPotentialArray
         return TransitionPotentialArray(14, arr(ens_shape + (4, 4)), energy=100e3, sampling=(0.125, 0.25), ensemble_axes_metadata=ens, metadata=md)
@@ -497,7 +516,7 @@ class C30(Property):
                 jobs.append(("fields", c))
             for i in range(ctx.n(150, 2000)):
                 c = rng.choice(classes)
-                a = gen_axis(rng, c, rng.randint(0, 3))
+                a = gen_axis(rng, c, rng.randint(0, 3), zero_dim=True)   # 0-d array fields: axis_to_dict raises TypeError
                 lines.append(f"axisrt {c.__name__} {wire(axis_fields(a))}")
                 jobs.append(("axisrt", a))
             from abtem.core import axes as A
@@ -619,17 +638,6 @@ class C30(Property):
             if diffs:
                 what = diffs[0][0].split(".")[0].rstrip("0123456789")
                 key = f"{kind}-{what}-changed"
-                if case.get("special") and len(diffs) == 1 and what == "metadata":
-                    # the recorded finding is reported only when the reloaded metadata is exactly what the finding says
-                    want = normalise(copy.deepcopy(o.metadata))
-                    if case["special"] == "reserved-key":
-                        want.pop("type", None)
-                        known_key = "metadata-reserved-key-dropped"
-                    else:
-                        want["note"] = (1, 2)
-                        known_key = "metadata-dict-with-_type-tuple-reloads-as-tuple"
-                    if strict_same(want, normalise(back.metadata)):
-                        key = known_key
                 ctx.violation(key, case, {"diffs": diffs[:5]})
                 return "diff"
             return "ok"
